@@ -407,6 +407,7 @@ def dstep (s : DState) (line : String) : DState × String :=
         let (b, r) := s.b.addDatum ⟨name, ty.replace "_" " ", sz, al, UNSET, un == "1"⟩
         ({ s with b := b }, match r with | .ok id => s!"ok {id}" | .error e => s!"err {errStr e}")
       | _, _ => (s, "bad-op")
+    | ["unreg", _] => (s, "refused")     -- a type the resolver's table does not contain: every entry point refuses it
     | ["rm", id] =>
       match id.toNat? with
       | some id =>
